@@ -355,6 +355,15 @@ ILLEGAL = [
     "void f(std::vector &v)",
     "void f(int<double> v)",
 ]
+# documented exclusions over the whole value alphabet of both attributes, in both orders: rank with dimension
+# (input.rst: "rank and dimension cannot be specified together"; rank 0 is a legal rank), value with dimension
+for _r in (0, 1, 2, 7):
+    for _d in ("3", "n", "3,4", "n+1"):
+        ILLEGAL.append("void f(double *a +rank(%d)+dimension(%s), int n)" % (_r, _d))
+        ILLEGAL.append("void f(double *a +dimension(%s)+rank(%d), int n)" % (_d, _r))
+for _d in ("3", "n"):
+    ILLEGAL.append("void f(int *a +dimension(%s)+value, int n)" % _d)
+ILLEGAL = list(dict.fromkeys(ILLEGAL))
 
 
 def attr_case(decl):
